@@ -241,6 +241,15 @@ func (v *Verifier) constTerm(c *ssa.Const) (*Term, error) {
 			bi, _ := new(big.Int).SetString(iv.ExactString(), 10)
 			return BigIntLit(bi), nil
 		}
+		if f, _ := constant.Float64Val(c.Value); s == SReal {
+			// the float64 values of pi and sqrt(pi) are kept symbolic (prelude: sqrtpi^2 = pi)
+			switch f {
+			case 3.141592653589793:
+				return App("pi", SReal), nil
+			case 1.772453850905516, 1.7724538509055159:
+				return App("sqrtpi", SReal), nil
+			}
+		}
 		r, ok := new(big.Rat).SetString(c.Value.ExactString())
 		if !ok {
 			// ExactString may be of the form a/b already handled; fall back
